@@ -218,6 +218,9 @@ class LtlAstParserVisitor(LtlParserVisitor):
         return node
 
     def literal_to_float(self, text):
+        # the grammar admits runs of digit-group underscores (1__0), float() and int() do not
+        if hasattr(text, 'replace'):
+            text = text.replace('_', '')
         try:
             return float(text)
         except ValueError:
